@@ -22,7 +22,7 @@ def prepare(backends):
 
 
 def plan(env, tier, seed):
-    n = 3 if tier == "quick" else 40
+    n = 5 if tier == "quick" else 160
     tasks = []
     for b, e in env.items():
         reg = e["reg"]
